@@ -59,6 +59,19 @@ def _helpers_reached(repo, ci, op: str) -> Dict[str, Selector]:
             continue
         seen.add(id(fn))
         for x in ast.walk(fn):
+            # ``getattr(self, "name")`` / ``getattr(self, self._chooser)`` with ``_chooser = "name"`` in the class body is ``self.name``
+            if isinstance(x, ast.Call) and isinstance(x.func, ast.Name) and x.func.id == "getattr" and len(x.args) >= 2 and isinstance(x.args[0], ast.Name) and x.args[0].id == "self":
+                nm_ = x.args[1].value if isinstance(x.args[1], ast.Constant) and isinstance(x.args[1].value, str) else None
+                if nm_ is None and isinstance(x.args[1], ast.Attribute) and isinstance(x.args[1].value, ast.Name) and x.args[1].value.id == "self":
+                    for kc in ci.mro():
+                        vals_ = [st.value for st in kc.node.body if isinstance(st, (ast.Assign, ast.AnnAssign)) and getattr(st, "value", None) is not None and any(
+                            isinstance(t_, ast.Name) and t_.id == x.args[1].attr for t_ in (st.targets if isinstance(st, ast.Assign) else [st.target]))]
+                        if vals_:
+                            if len(vals_) == 1 and isinstance(vals_[0], ast.Constant) and isinstance(vals_[0].value, str):
+                                nm_ = vals_[0].value
+                            break
+                if nm_ is not None:
+                    x = ast.Attribute(value=ast.Name(id="self", ctx=ast.Load()), attr=nm_, ctx=ast.Load())
             if isinstance(x, ast.Attribute) and isinstance(x.value, ast.Name) and x.value.id in ("self", "cls", ci.name):
                 r = ci.find_method(x.attr)
                 if r is not None and x.attr not in ("evaluate", "validate", "keys", "explain") and not (x.attr.startswith("__") and x.attr.endswith("__")) \
@@ -1055,6 +1068,33 @@ def _bare_ok(arg: ast.expr) -> Optional[str]:
     return "a factory is documented to be called without arguments" if name.endswith("factory") else None
 
 
+def _literal_mapping(tree: ast.Module, call: ast.Call, v: ast.expr) -> bool:
+    """``**v`` where v is a dict display with constant keys, a choice between such displays, or a local of the calling function
+    bound to nothing else: the keywords are spelled out by the library all the same."""
+    def disp(e) -> bool:
+        if isinstance(e, ast.Dict):
+            return all(isinstance(k_, ast.Constant) and isinstance(k_.value, str) for k_ in e.keys)
+        if isinstance(e, ast.IfExp):
+            return disp(e.body) and disp(e.orelse)
+        return False
+    if disp(v):
+        return True
+    if not isinstance(v, ast.Name):
+        return False
+    for fn_ in ast.walk(tree):
+        if isinstance(fn_, (ast.FunctionDef, ast.AsyncFunctionDef)) and any(x is call for x in ast.walk(fn_)):
+            if v.id in {a_.arg for a_ in fn_.args.posonlyargs + fn_.args.args + fn_.args.kwonlyargs} or (fn_.args.kwarg and fn_.args.kwarg.arg == v.id):
+                return False
+            binds = [st for st in ast.walk(fn_) if isinstance(st, (ast.Assign, ast.AnnAssign, ast.AugAssign, ast.NamedExpr, ast.For, ast.comprehension, ast.withitem))
+                     for t_ in ([st.target] if hasattr(st, "target") else (st.targets if hasattr(st, "targets") else [st.optional_vars] if getattr(st, "optional_vars", None) is not None else []))
+                     for z in ast.walk(t_) if isinstance(z, ast.Name) and z.id == v.id]
+            muts = [x for x in ast.walk(fn_) if (isinstance(x, ast.Subscript) and isinstance(x.value, ast.Name) and x.value.id == v.id and isinstance(x.ctx, (ast.Store, ast.Del)))
+                    or (isinstance(x, ast.Call) and isinstance(x.func, ast.Attribute) and isinstance(x.func.value, ast.Name) and x.func.value.id == v.id
+                        and x.func.attr in ("update", "setdefault", "pop", "popitem", "clear"))]
+            return bool(binds) and not muts and all(isinstance(b_, (ast.Assign, ast.AnnAssign)) and b_.value is not None and disp(b_.value) for b_ in binds)
+    return False
+
+
 def _only_literal_keywords(run: Run, name: str) -> bool:
     """Every use of the name in the repository is a call that passes no ``**mapping`` (and there is at least one)."""
     calls = 0
@@ -1066,8 +1106,9 @@ def _only_literal_keywords(run: Run, name: str) -> bool:
                 if (isinstance(f, ast.Name) and f.id == name) or (isinstance(f, ast.Attribute) and f.attr == name):
                     callfuncs.add(id(f))
                     calls += 1
-                    if any(k.arg is None for k in c.keywords):
-                        return False
+                    for k in c.keywords:
+                        if k.arg is None and not _literal_mapping(m.tree, c, k.value):
+                            return False
         for x in ast.walk(m.tree):
             if ((isinstance(x, ast.Name) and x.id == name) or (isinstance(x, ast.Attribute) and x.attr == name)) and isinstance(x.ctx, ast.Load) and id(x) not in callfuncs:
                 return False        # handed on as a value: its callers are out of sight
@@ -1091,7 +1132,7 @@ def rule_KW(run: Run) -> RuleResult:
         if cls is not None and named and not any(ast.unparse(d) == "staticmethod" for d in fn.decorator_list) and a.args and named[0] == a.args[0].arg and not a.posonlyargs:
             named = named[1:]
         capturing = [p for p in named if not p.startswith("__") and (q, p) not in KW_EXEMPT]
-        if capturing and fn.name.startswith("_") and not fn.name.startswith("__") and _only_literal_keywords(run, fn.name):
+        if capturing and ((fn.name.startswith("_") and not fn.name.startswith("__")) or m.name.split(".")[-1].startswith("_")) and _only_literal_keywords(run, fn.name):
             # a private builder whose every call in the repository spells its keywords out: what arrives in ** is
             # chosen by the library, no user keyword can meet a parameter name
             capturing = []
@@ -1546,7 +1587,9 @@ def rule_ID(run: Run) -> RuleResult:
         for e in p.events:
             if e.kind == "call" and e.text == "labrea.dataset.abstractdataset":
                 n_abs += 1
-                at0 = Frame.atoms(p.conds[:e.ncond])
+                # (an element that came through a filtering comprehension / generator helper satisfies the filter)
+                kept_ = [(f_.text, True, f_.target.key()) for f_ in p.events[:p.events.index(e)] if f_.kind == "filter" and f_.target is not None]
+                at0 = Frame.atoms(list(p.conds[:e.ncond]) + kept_)
                 names_ = {m_.group(1) for k_ in at0 for m_ in [_re0.match(r"cmp:In\((.+),dct\)$", k_)] if m_}
                 good = any(at0.get(f"cmp:In({x_},dct)") is False and at0.get(f"call:startswith({x_},Const('_'))") is False for x_ in names_)
                 if not good:
